@@ -247,7 +247,7 @@ def aioPingReply (p : Bytes) : Bytes :=
 
 /-- what `PrefixProtocol.data_received` does with a complete frame (`Bool` = an exception left `data_received`):
 a data frame goes to `stringReceived`; a PING is answered with one PONG carrying the same payload; a PONG is consumed.
-Legacy (F13, repaired in /repo PENDING-asyncio-rawsocket-ping-pong): `ping()`/`pong()` were `raise NotImplementedError()`;
+Legacy (F13, repaired in /repo 4c355c2c): `ping()`/`pong()` were `raise NotImplementedError()`;
 the translator reads which it is (`aioPingRaises`, `aioPongRaises`), so re-introducing the `raise` makes the model raise
 again and `prefix_never_raises` / `aio_serves` stop checking. -/
 def aioDispatch (kind : Nat) (p : Bytes) : List Ev × Bool :=
@@ -271,7 +271,7 @@ def aioFraming (maxLength : Nat) : Framing where
 
 /-- what the `lengthLimitExceeded(length)` override of twisted/rawsocket.py does (`twLengthLimitAction`, read from the
 source): 0 — logs and calls `self.abort()` (`transport.abortConnection()`); 1 — legacy (N1, repaired in /repo
-PENDING-twisted-rawsocket-length-limit-exceeded): `raise PayloadExceededError`, which left `dataReceived`;
+3817d6f2): `raise PayloadExceededError`, which left `dataReceived`;
 otherwise — the base class behaviour `transport.loseConnection()`. -/
 def twLimitEvents : List Ev :=
   if WampTransport.twLengthLimitAction = 0 then [.tclose .abort]
@@ -459,7 +459,7 @@ asyncio `WampRawSocketMixinGeneral.send()`: `max_length_send = min(self.max_leng
 if payload_len > max_length_send: raise PayloadExceededError`
 (legacy F14, repaired in /repo 11645fb6: only `sendString` checked and raised `ValueError("Data too big")`; the
 translator reads the class raised on this path into `aioSendOverLimitExc`). `none` = the payload goes out.
-Legacy (N2, repaired in /repo PENDING-rawsocket-send-24-bit-length): the guards compared with the announced limit alone, so
+Legacy (N2, repaired in /repo 8cc5721d): the guards compared with the announced limit alone, so
 with exponent 15 a payload of exactly 2^24 octets went out with prefix `01 00 00 00`. The caps are read from the source
 (`twSendFrameCap`, `aioSendFrameCap`, `aioSendStringFrameCap`; 0 = no cap). -/
 def sendGuard (v : Variant) (maxLenSend len : Nat) : Option Exc :=
